@@ -235,9 +235,12 @@ enum Topo {
     /// the original holds 20 000 lent values and is dropped by the unwinding of a thread with a
     /// 256 KiB stack
     LongChainUnwoundOnSmallStack,
+    /// a guard, dropped by the unwinding, builds a mock of its own with an unmet expectation and
+    /// drops it, and makes a valid call on a clone of the mock under test
+    GuardUsesMocksWhileUnwinding,
 }
 
-const TOPOS: [Topo; 18] = [
+const TOPOS: [Topo; 19] = [
     Topo::Plain,
     Topo::CloneOutlives,
     Topo::CloneDiesFirst,
@@ -256,6 +259,7 @@ const TOPOS: [Topo; 18] = [
     Topo::CaughtLendingClone,
     Topo::CaughtCloneSurvivesOriginal,
     Topo::LongChainUnwoundOnSmallStack,
+    Topo::GuardUsesMocksWhileUnwinding,
 ];
 
 fn applicable(o: Origin, t: Topo) -> bool {
@@ -448,6 +452,22 @@ fn child(origin: Origin, topo: Topo, met: bool) -> ! {
                 .join();
             println!("JOINED: {}", if r.is_err() { "err" } else { "ok" });
             std::process::exit(0);
+        }
+        Topo::GuardUsesMocksWhileUnwinding => {
+            struct Guard(Unimock);
+            impl Drop for Guard {
+                fn drop(&mut self) {
+                    // a mock created during cleanup, with something to complain about
+                    let own = Unimock::new(KMock::m.each_call(matching!(0)).returns(1u32).n_times(1));
+                    drop(own);
+                    // a perfectly valid call on a clone of the mock under test (`su`'s sibling `pong`
+                    // style methods are not set up everywhere: use the base pattern, open-ended side)
+                    let _ = self.0.m(0);
+                }
+            }
+            let u = original;
+            let _guard = Guard(u.clone());
+            act(&u, origin, met);
         }
         Topo::VerifyInGuard | Topo::VerifyInGuardCloneAlive => {
             struct Guard(Option<Unimock>);
